@@ -253,7 +253,7 @@ def check(case):
     if d.unsupported:
         out.status = "blocked"
         return out
-    if d.errors:
+    if S.blocking(d):
         out.status = "blocked_by_static"
         out.labels += ["static:" + x for x in d.error_rules()]
         return out
@@ -295,7 +295,7 @@ def check(case):
             c2 = S.Compiled(sp)
         except S.Rejected:
             return False
-        if c2.design.unsupported or c2.design.errors:
+        if c2.design.unsupported or S.blocking(c2.design):
             return False
         cs = dict(case, spec=sp)
         return evaluate(c2, cs)[0] == status
